@@ -127,6 +127,9 @@ LoopOutcome(D, Cand, u, tgt) ==
   /\ IF D = {} THEN (Cand = {} \/ u <= tgt)
      ELSE /\ \E d \in D : u - SumSize(D \ {d}) > tgt
           /\ (D # Cand => u - SumSize(D) <= tgt)
+SumSizeOf(f, S) == LET RECURSIVE Sum(_)
+                         Sum(T) == IF T = {} THEN 0 ELSE LET x == CHOOSE x \in T : TRUE IN f[x] + Sum(T \ {x})
+                     IN Sum(S)
 CleanOutcome(pct, respectBan, D2, D3) ==
   LET tgt == Target(pct)
       n == EvN(cap - tgt)
